@@ -7,7 +7,7 @@ from vlib.registry import PROPERTIES, NOT_APPLICABLE, MANIFEST_TEXT
 
 hooks_commits = [l.strip() for l in open(os.path.join(VERIF, "hooks_commits.txt")) if l.strip()]
 checks = []
-for pid in sorted(p for p in PROPERTIES if p != 'EXP'):
+for pid in sorted(PROPERTIES):
     p = PROPERTIES[pid]
     mt = MANIFEST_TEXT[pid]
     checks.append({
@@ -33,7 +33,7 @@ m = {
     },
     "engines": [{
         "name": "kani-cbmc", "path": "/verif/kani",
-        "serves_properties": sorted(p for p in PROPERTIES if p != 'EXP'),
+        "serves_properties": sorted(PROPERTIES),
         "kind_free_text": "Kani 0.68 proof harnesses over /repo's working tree (path dependency), CBMC 6.11 bit-precise bounded model checking, CaDiCaL SAT; driver /verif/check (python) schedules harnesses, applies per-loop unwindsets, classifies verdicts, replays counterexamples natively",
     }],
     "checks": checks,
